@@ -36,7 +36,7 @@ theorem count_pair_cons (l : List (Nat × Nat)) (q x q' t : Nat) :
   · obtain ⟨rfl, rfl⟩ := h; simp [ind]
   · have : ¬ ((q', t) = (q, x)) := by
       intro h'; apply h; simp only [Prod.mk.injEq] at h'; exact ⟨h'.1.symm, h'.2.symm⟩
-    simp [List.count_cons, ind, h, this]
+    simp [ind, h, this]
 
 theorem logs_dispatch (th : Thread) (c : Cmd) :
     (dispatch th c).popLog = th.popLog ∧ (dispatch th c).addLog = th.addLog := by
@@ -114,5 +114,271 @@ theorem queueInv_init (progs : List (List Cmd)) : QueueInv (init progs) := by
 theorem queueInv_run (cfg : Cfg) (progs : List (List Cmd)) (sched : List Nat) :
     QueueInv (run cfg (init progs) sched) :=
   run_inv cfg QueueInv (fun s tid h => queueInv_step cfg s tid h) _ sched (queueInv_init progs)
+
+/-- the queue entry a thread inside `get_task`'s scan has looked at: (queue, position, task) -/
+def pcQueueRef : PC → Option (Nat × Nat × Nat)
+  | .tlStart (.pop q i) t => some (q, i - 1, t)
+  | .tl0 (.pop q i) t => some (q, i - 1, t)
+  | .tl1 (.pop q i) t => some (q, i - 1, t)
+  | .tlBack (.pop q i) t => some (q, i - 1, t)
+  | .popRemove q j t => some (q, j, t)
+  | _ => none
+
+def RefOk (m : Mem) (th : Thread) : Prop :=
+  ∀ q j t, pcQueueRef th.pc = some (q, j, t) → (m.items q)[j]? = some t
+
+/-- a task the pop is about to return is in the thread's `tasks` (its locks are counted) -/
+def RetOk (th : Thread) : Prop := ∀ q x, th.pc = .popUnlock q (some x) → x ∈ th.tasks
+
+theorem ref_holds_queue (cfg : Cfg) (pc : PC) (q j t : Nat) (h : pcQueueRef pc = some (q, j, t)) :
+    pcHoldL cfg pc (.queue q) ≥ 1 := by
+  cases pc <;> simp only [pcQueueRef, reduceCtorEq] at h
+  case tlStart c t' => cases c <;> simp_all [pcQueueRef, pcHoldL, ctxHold, ind]
+  case tl0 c t' => cases c <;> simp_all [pcQueueRef, pcHoldL, ctxHold, ind]
+  case tl1 c t' => cases c <;> simp_all [pcQueueRef, pcHoldL, ctxHold, ind]
+  case tlBack c t' => cases c <;> simp_all [pcQueueRef, pcHoldL, ctxHold, ind]
+  case popRemove q' j' t' => simp_all [pcHoldL, ind]
+
+/-- only a thread that holds the queue lock changes the queue content -/
+theorem exec_items_frame (cfg : Cfg) (m : Mem) (th : Thread) (q : Nat)
+    (h : pcHoldL cfg th.pc (.queue q) = 0) : (exec cfg m th).1.items q = m.items q := by
+  unfold exec
+  cases hpc : th.pc
+  case addBody q' t =>
+    simp only [hpc, pcHoldL, ind] at h
+    have : q ≠ q' := by intro e; subst e; simp at h
+    simp [upd_apply, this]
+  case popRemove q' j t =>
+    simp only [hpc, pcHoldL, ind] at h
+    have : q ≠ q' := by intro e; subst e; simp at h
+    simp only
+    split <;> simp [upd_apply, this]
+  all_goals
+    first
+    | (simp only; done)
+    | (simp only; (repeat' split) <;> rfl)
+
+theorem ref_dispatch (th : Thread) (c : Cmd) :
+    pcQueueRef (dispatch th c).pc = none ∧ ∀ q x, (dispatch th c).pc ≠ .popUnlock q (some x) := by
+  cases c <;> simp only [dispatch, ret] <;> (try split) <;> simp [pcQueueRef]
+
+theorem exec_refOk (cfg : Cfg) (m : Mem) (th : Thread) (h : RefOk m th) :
+    RefOk (exec cfg m th).1 (exec cfg m th).2 ∧ (RetOk th → RetOk (exec cfg m th).2) := by
+  unfold exec
+  cases hpc : th.pc
+  case idle =>
+    simp only
+    split
+    · exact ⟨h, id⟩
+    · rename_i c0 rest hp
+      have := ref_dispatch { th with pc := .idle, prog := rest } c0
+      unfold RefOk RetOk
+      simp only [this.1]
+      refine ⟨by simp, fun _ q x hx => absurd hx (this.2 q x)⟩
+  case popScan q i =>
+    simp only
+    split
+    · unfold RefOk RetOk; simp [pcQueueRef]
+    · split
+      · rename_i t ht
+        unfold RefOk RetOk
+        simp only [pcQueueRef]
+        refine ⟨?_, by simp⟩
+        intro q' j' t' hh
+        simp only [Option.some.injEq, Prod.mk.injEq] at hh
+        obtain ⟨rfl, rfl, rfl⟩ := hh
+        exact ht
+      · unfold RefOk RetOk; simp [pcQueueRef]
+  case popRemove q j t =>
+    have hj := h q j t (by simp [hpc, pcQueueRef])
+    simp only [hj]
+    unfold RefOk RetOk
+    simp [pcQueueRef]
+  case tlStart c t =>
+    cases c <;> simp only <;> (repeat' split) <;> unfold RefOk RetOk at * <;> simp_all [pcQueueRef, tlSucc, tlFail, ret]
+  case tl0 c t =>
+    cases c <;> simp only <;> (repeat' split) <;> unfold RefOk RetOk at * <;> simp_all [pcQueueRef, tlSucc, tlFail, ret]
+  case tl1 c t =>
+    cases c <;> simp only <;> (repeat' split) <;> unfold RefOk RetOk at * <;> simp_all [pcQueueRef, tlSucc, tlFail, ret]
+  case tlBack c t =>
+    cases c <;> simp only <;> (repeat' split) <;> unfold RefOk RetOk at * <;> simp_all [pcQueueRef, tlSucc, tlFail, ret]
+  case getTotal j r => cases r <;> unfold RefOk RetOk <;> simp [pcQueueRef, getDone, ret]
+  all_goals
+    first
+    | (simp only; (repeat' split) <;> unfold RefOk RetOk at * <;> simp_all [pcQueueRef, ret] <;> done)
+
+/-- stability of the scanned queue entry + returned task is counted, for every thread -/
+def StabInv (s : State) : Prop := ∀ (k : Nat) (th : Thread), s.threads[k]? = some th → RefOk s.mem th ∧ RetOk th
+
+theorem stabInv_step (cfg : Cfg) (s : State) (tid : Nat) (hl : LockInv cfg s) (h : StabInv s) :
+    StabInv (step cfg s tid) := by
+  cases hth : s.threads[tid]? with
+  | none => rw [step_none cfg s tid hth]; exact h
+  | some thu =>
+    rw [step_some cfg s tid thu hth]
+    intro k th hk
+    simp only [List.getElem?_set] at hk
+    by_cases hkt : tid = k
+    · subst hkt
+      have hlt : tid < s.threads.length := by
+        rcases Nat.lt_or_ge tid s.threads.length with h' | h'
+        · exact h'
+        · rw [List.getElem?_eq_none h'] at hth; cases hth
+      simp only [hlt, if_true] at hk
+      cases hk
+      have := exec_refOk cfg s.mem thu (h tid thu hth).1
+      exact ⟨this.1, this.2 (h tid thu hth).2⟩
+    · simp only [hkt, if_false] at hk
+      refine ⟨?_, (h k th hk).2⟩
+      intro q j t href
+      have hold := (h k th hk).1 q j t href
+      have h1 : pcHoldL cfg th.pc (.queue q) ≥ 1 := ref_holds_queue cfg th.pc q j t href
+      have hle := add_le_sumT (holdL cfg (.queue q)) s.threads tid k thu th hth hk hkt
+      have hs := hl (.queue q)
+      have hb := Bool.toNat_le (s.mem.locks (.queue q))
+      have e1 : holdL cfg (.queue q) th = heldHold th.held (.queue q) + tasksHold cfg th.tasks (.queue q) + pcHoldL cfg th.pc (.queue q) := rfl
+      have e2 : holdL cfg (.queue q) thu = heldHold thu.held (.queue q) + tasksHold cfg thu.tasks (.queue q) + pcHoldL cfg thu.pc (.queue q) := rfl
+      have h0 : pcHoldL cfg thu.pc (.queue q) = 0 := by omega
+      simp only
+      rw [exec_items_frame cfg s.mem thu q h0]
+      exact hold
+
+theorem stabInv_init (progs : List (List Cmd)) : StabInv (init progs) := by
+  intro k th hk
+  have hm : th ∈ (init progs).threads := List.mem_of_getElem? hk
+  simp only [init, List.mem_map] at hm
+  obtain ⟨p, _, rfl⟩ := hm
+  unfold RefOk RetOk
+  simp [pcQueueRef]
+
+theorem stabInv_run (cfg : Cfg) (progs : List (List Cmd)) (sched : List Nat) :
+    StabInv (run cfg (init progs) sched) :=
+  (run_inv cfg (fun s => LockInv cfg s ∧ StabInv s)
+    (fun s tid h => ⟨lockInv_step cfg s tid h.1, stabInv_step cfg s tid h.1 h.2⟩) _ sched
+    ⟨lockInv_init cfg progs, stabInv_init progs⟩).2
+
+theorem depsHold_le_tasksHold (cfg : Cfg) (ts : List Nat) (x : Nat) (L : LockId) (h : x ∈ ts) :
+    depsHold cfg x L ≤ tasksHold cfg ts L := by
+  have := tasksHold_erase cfg ts x L h
+  omega
+
+/-- all locks task `x` declares are free (and it does not declare the same lock twice) -/
+def Lockable (cfg : Cfg) (locks : LockId → Bool) (x : Nat) : Prop :=
+  match cfg.deps x with
+  | (none, _) => True
+  | (some a, none) => locks (.dep a) = false
+  | (some a, some b) => a ≠ b ∧ locks (.dep a) = false ∧ locks (.dep b) = false
+
+/-- solo progress of the scan of `get_task` / `try_get_task`: if some entry below the scan position
+is lockable, the thread, running alone, returns a task -/
+theorem pop_progress (cfg : Cfg) (tid q : Nat) (i : Nat) :
+    ∀ (s : State) (th : Thread), s.threads[tid]? = some th → th.pc = .popScan q i →
+      i ≤ (s.mem.items q).length →
+      (∃ j x, j < i ∧ (s.mem.items q)[j]? = some x ∧ Lockable cfg s.mem.locks x) →
+      Solo cfg tid s (fun s' => ∃ th' y, s'.threads[tid]? = some th' ∧ th'.pc = .popUnlock q (some y)) := by
+  induction i with
+  | zero => intro s th _ _ _ ⟨j, x, hj, _⟩; omega
+  | succ i ih =>
+    intro s th hth hpc hlen ⟨j, x, hj, hjx, hlk⟩
+    have hi : i < (s.mem.items q).length := by omega
+    obtain ⟨t, ht⟩ : ∃ t, (s.mem.items q)[i]? = some t := ⟨_, List.getElem?_eq_getElem hi⟩
+    -- popScan: read the candidate
+    have e1 : exec cfg s.mem th = (s.mem, { th with pc := .tlStart (.pop q (i + 1)) t }) := by
+      unfold exec; rw [hpc]; simp [ht]
+    have h1 := solo_exec hth e1
+    apply Solo.next
+    -- the removal of candidate `t` once its locks are taken
+    have finish : ∀ (s2 : State) (th2 : Thread), s2.threads[tid]? = some th2 →
+        th2.pc = .popRemove q i t → s2.mem.items = s.mem.items →
+        Solo cfg tid s2 (fun s' => ∃ th' y, s'.threads[tid]? = some th' ∧ th'.pc = .popUnlock q (some y)) := by
+      intro s2 th2 hth2 hpc2 hit
+      have e : exec cfg s2.mem th2 = ({ s2.mem with items := upd s2.mem.items q ((s2.mem.items q).eraseIdx i) },
+          { th2 with pc := .popUnlock q (some t), tasks := t :: th2.tasks, popLog := (q, t) :: th2.popLog }) := by
+        unfold exec; rw [hpc2]; simp [hit, ht]
+      have h := solo_exec hth2 e
+      exact Solo.next (Solo.now ⟨_, t, h.1, rfl⟩)
+    -- going on with the next candidate after a failed attempt that restored the locks
+    have goOn : ∀ (s2 : State) (th2 : Thread), s2.threads[tid]? = some th2 →
+        th2.pc = .popScan q i → s2.mem.items = s.mem.items → (∀ L, s2.mem.locks L = s.mem.locks L) →
+        ¬ Lockable cfg s.mem.locks t →
+        Solo cfg tid s2 (fun s' => ∃ th' y, s'.threads[tid]? = some th' ∧ th'.pc = .popUnlock q (some y)) := by
+      intro s2 th2 hth2 hpc2 hit hlo hnl
+      have hji : j < i := by
+        rcases Nat.lt_or_ge j i with h | h
+        · exact h
+        · have : j = i := by omega
+          subst this; rw [ht] at hjx; cases hjx; exact absurd hlk hnl
+      refine ih s2 th2 hth2 hpc2 (by rw [hit]; omega) ⟨j, x, hji, by rw [hit]; exact hjx, ?_⟩
+      unfold Lockable at hlk ⊢
+      rcases hd : cfg.deps x with ⟨_ | a, _ | b⟩ <;> simp only [hd] at hlk ⊢ <;> simp_all
+    rcases hd : cfg.deps t with ⟨_ | a, d1⟩
+    · -- no dependency: lock_dependency returns true at once
+      have e2 : exec cfg (step cfg s tid).mem { th with pc := .tlStart (.pop q (i + 1)) t }
+          = ((step cfg s tid).mem, { th with pc := .popRemove q i t }) := by
+        unfold exec; simp [hd, tlSucc]
+      have h2 := solo_exec h1.1 e2
+      apply Solo.next
+      exact finish _ _ h2.1 rfl (by rw [h2.2, h1.2])
+    · have e2 : exec cfg (step cfg s tid).mem { th with pc := .tlStart (.pop q (i + 1)) t }
+          = ((step cfg s tid).mem, { th with pc := .tl0 (.pop q (i + 1)) t }) := by
+        unfold exec; simp [hd]
+      have h2 := solo_exec h1.1 e2
+      apply Solo.next
+      have hm2 : (step cfg (step cfg s tid) tid).mem = s.mem := by rw [h2.2, h1.2]
+      cases hla : s.mem.locks (.dep a)
+      · -- first dependency free
+        cases d1 with
+        | none =>
+          have e3 : exec cfg (step cfg (step cfg s tid) tid).mem { th with pc := .tl0 (.pop q (i + 1)) t }
+              = ({ s.mem with locks := upd s.mem.locks (.dep a) true }, { th with pc := .popRemove q i t }) := by
+            unfold exec; simp [hd, hm2, hla, tlSucc]
+          have h3 := solo_exec h2.1 e3
+          apply Solo.next
+          exact finish _ _ h3.1 rfl (by rw [h3.2])
+        | some b =>
+          have e3 : exec cfg (step cfg (step cfg s tid) tid).mem { th with pc := .tl0 (.pop q (i + 1)) t }
+              = ({ s.mem with locks := upd s.mem.locks (.dep a) true }, { th with pc := .tl1 (.pop q (i + 1)) t }) := by
+            unfold exec; simp [hd, hm2, hla]
+          have h3 := solo_exec h2.1 e3
+          apply Solo.next
+          cases hlb : upd s.mem.locks (.dep a) true (.dep b)
+          · -- second dependency free as well
+            have e4 : exec cfg (step cfg (step cfg (step cfg s tid) tid) tid).mem { th with pc := .tl1 (.pop q (i + 1)) t }
+                = ({ s.mem with locks := upd (upd s.mem.locks (.dep a) true) (.dep b) true },
+                   { th with pc := .popRemove q i t }) := by
+              unfold exec; simp [hd, h3.2, hlb, tlSucc]
+            have h4 := solo_exec h3.1 e4
+            apply Solo.next
+            exact finish _ _ h4.1 rfl (by rw [h4.2])
+          · -- second dependency busy: roll back, next candidate
+            have e4 : exec cfg (step cfg (step cfg (step cfg s tid) tid) tid).mem { th with pc := .tl1 (.pop q (i + 1)) t }
+                = ({ s.mem with locks := upd s.mem.locks (.dep a) true }, { th with pc := .tlBack (.pop q (i + 1)) t }) := by
+              unfold exec; simp [hd, h3.2, hlb]
+            have h4 := solo_exec h3.1 e4
+            apply Solo.next
+            have e5 : exec cfg (step cfg (step cfg (step cfg (step cfg s tid) tid) tid) tid).mem { th with pc := .tlBack (.pop q (i + 1)) t }
+                = ({ s.mem with locks := upd (upd s.mem.locks (.dep a) true) (.dep a) false },
+                   { th with pc := .popScan q i }) := by
+              unfold exec; simp [hd, h4.2, tlFail]
+            have h5 := solo_exec h4.1 e5
+            apply Solo.next
+            refine goOn _ _ h5.1 rfl (by rw [h5.2]) ?_ ?_
+            · intro L; rw [h5.2]; simp only [upd_apply]
+              split
+              · rename_i h; rw [h, hla]
+              · rfl
+            · unfold Lockable; simp only [hd]
+              intro ⟨hab, _, hb⟩
+              rw [upd_other _ _ _ _ (by intro h; cases h; exact hab rfl)] at hlb
+              rw [hb] at hlb; cases hlb
+      · -- first dependency busy: next candidate
+        have e3 : exec cfg (step cfg (step cfg s tid) tid).mem { th with pc := .tl0 (.pop q (i + 1)) t }
+            = (s.mem, { th with pc := .popScan q i }) := by
+          unfold exec; simp [hd, hm2, hla, tlFail]
+        have h3 := solo_exec h2.1 e3
+        apply Solo.next
+        refine goOn _ _ h3.1 rfl (by rw [h3.2]) (by intro L; rw [h3.2]) ?_
+        unfold Lockable; rw [hd]
+        cases d1 <;> simp [hla]
 
 end CMacVerif.Atomics
